@@ -16,14 +16,16 @@ namespace AIToolbox {
     }
 
     bool isProbability(const SparseMatrix2D & in) {
-        // Eigen sparse does not implement minCoeff so we can't check for negatives.
-        // So we force the matrix to its abs, and if then the sum goes haywire then
-        // we found an error.
-        for (size_t row = 0; row < static_cast<size_t>(in.rows()); ++row)
-            if (
-                checkDifferentSmall(in.row(row).sum(), 1.0) ||
-                checkDifferentSmall(in.row(row).cwiseAbs().sum(), 1.0)
-            ) return false;
+        // Eigen sparse does not implement minCoeff, so we walk the stored
+        // coefficients of each row ourselves (the matrix is row-major).
+        for (Eigen::Index row = 0; row < in.outerSize(); ++row) {
+            double sum = 0.0;
+            for (SparseMatrix2D::InnerIterator it(in, row); it; ++it) {
+                if (it.value() < 0.0) return false;
+                sum += it.value();
+            }
+            if (checkDifferentSmall(sum, 1.0)) return false;
+        }
         return true;
     }
 
